@@ -20,6 +20,7 @@ mod c12;
 mod c13;
 mod c17;
 mod c18;
+mod c19;
 mod c20;
 mod genprog;
 mod irdecode;
@@ -151,6 +152,10 @@ fn main() {
         "C20" => {
             c20::run(&rep);
             (c20::RULE, false, vec![A_CLI, "instruction boundaries = hook records; the instruction sequence of a program does not depend on prompt input, so the all-next run supplies the sequence the history model cuts prefixes from", "liveness is monitored in bounded form: no more than 4 MiB of output and termination within a 20 s watchdog (a watchdog alone is inconclusive)"])
+        }
+        "C19" => {
+            c19::run(&rep);
+            (c19::RULE, false, vec![A_CLI, "8 runs expose a per-process hash-order dependence that flips with probability 1/2 with probability 1 - 2^-7", "stderr is not compared (non-empty only on a panic, whose text carries a thread id)"])
         }
         "C06" => {
             c06::run(&rep);
